@@ -78,7 +78,9 @@ func workID(w int) string { return fmt.Sprintf("work-%04d", w) }
 func c10Result(r c10Res) common.CheckResult {
 	var cr common.CheckResult
 	cr.UpkeepID = UpkeepID(0, r.W)
-	cr.Trigger = common.NewTrigger(common.BlockNumber(r.B), Hash32("blk", int(r.B)))
+	// results with equal (work id, check block) and different U may sit on different forks: the block hash follows
+	// U mod 3, so "equal check block, other hash" occurs; it is still an EQUAL check block and never overwrites
+	cr.Trigger = common.NewTrigger(common.BlockNumber(r.B), Hash32("blk", int(r.B)*8+r.U%3))
 	cr.WorkID = workID(r.W)
 	cr.Eligible = r.Inel != 1
 	if r.Inel == 2 {
